@@ -22,8 +22,18 @@ type availEnt struct {
 	// callee receives a pointer to the enclosing struct, so that what one call learns about the content (a predicate
 	// method returning false) is still known at a later call that sees the same version
 	ver string
+	// phi (with rep == nil, ver == ""): the location holds a different known slice value on each incoming edge of
+	// block phiAt (`if cap(s.buf) < n { s.buf = make(…) }` followed by a load of s.buf): the first load of it is a
+	// "memory phi" whose length and capacity are related to the per-edge values like those of an SSA phi
+	phi   []ssa.Value
+	phiAt *ssa.BasicBlock
 }
 type availMap map[string]availEnt
+
+type memPhi struct {
+	load *ssa.UnOp
+	reps []ssa.Value // aligned with the predecessors of the join block; nil where unknown
+}
 
 func (m availMap) clone() availMap {
 	n := make(availMap, len(m))
@@ -38,8 +48,14 @@ func availEqual(a, b availMap) bool {
 		return false
 	}
 	for k, v := range a {
-		if w, ok := b[k]; !ok || w.rep != v.rep || w.ver != v.ver {
+		if w, ok := b[k]; !ok || w.rep != v.rep || w.ver != v.ver || len(w.phi) != len(v.phi) || w.phiAt != v.phiAt {
 			return false
+		} else {
+			for i := range w.phi {
+				if w.phi[i] != v.phi[i] {
+					return false
+				}
+			}
 		}
 	}
 	return true
@@ -99,6 +115,9 @@ func (a *FuncAn) availTransfer(b *ssa.BasicBlock, m availMap) {
 			if e, ok := m[k]; ok && e.rep != nil && types.Identical(e.rep.Type(), x.Type()) {
 				a.canon[x] = e.rep
 			} else {
+				if ok && e.phi != nil && e.phiAt != nil && a.memPhis != nil {
+					a.memPhis[e.phiAt] = append(a.memPhis[e.phiAt], memPhi{load: x, reps: e.phi})
+				}
 				a.canon[x] = x
 				m[k] = availEnt{p: p, rep: x}
 			}
@@ -186,12 +205,19 @@ func (a *FuncAn) computeCanon() {
 	out := map[*ssa.BasicBlock]availMap{}
 	for pass := 0; pass < 50; pass++ {
 		changed := false
+		a.memPhis = map[*ssa.BasicBlock][]memPhi{}
 		for _, b := range a.rpo {
 			var in availMap
 			if b == fn.Blocks[0] {
 				in = availMap{}
 			} else {
 				first := true
+				allKnown := true
+				for _, p := range b.Preds {
+					if _, ok := out[p]; !ok {
+						allKnown = false
+					}
+				}
 				for _, p := range b.Preds {
 					o, ok := out[p]
 					if !ok {
@@ -202,7 +228,12 @@ func (a *FuncAn) computeCanon() {
 						continue
 					}
 					for k, e := range in {
-						if w, ok := o[k]; !ok || w.rep != e.rep || w.ver != e.ver {
+						if w, ok := o[k]; !ok || w.rep != e.rep || w.ver != e.ver || e.phi != nil || w.phi != nil {
+							// different slice values on the edges of a two-way join: keep them as a memory phi
+							if mp := a.memPhiEntry(b, k, out, allKnown); mp != nil {
+								in[k] = *mp
+								continue
+							}
 							delete(in, k)
 						}
 					}
@@ -225,6 +256,33 @@ func (a *FuncAn) computeCanon() {
 	for k := range a.canon {
 		a.canon[k] = k
 	}
+}
+
+// memPhiEntry: location k holds a known value of one slice type at the end of every predecessor of b (not the same
+// one): the entry that stands for "one of them, by edge".
+func (a *FuncAn) memPhiEntry(b *ssa.BasicBlock, k string, out map[*ssa.BasicBlock]availMap, allKnown bool) *availEnt {
+	if !allKnown || len(b.Preds) < 2 || len(b.Preds) > 4 {
+		return nil
+	}
+	var reps []ssa.Value
+	var p *apath
+	var typ types.Type
+	for _, pr := range b.Preds {
+		e, ok := out[pr][k]
+		if !ok || e.rep == nil {
+			return nil
+		}
+		if _, isSl := e.rep.Type().Underlying().(*types.Slice); !isSl {
+			return nil
+		}
+		if typ != nil && !types.Identical(typ, e.rep.Type()) {
+			return nil
+		}
+		typ = e.rep.Type()
+		p = e.p
+		reps = append(reps, e.rep)
+	}
+	return &availEnt{p: p, phi: reps, phiAt: b}
 }
 
 // ---------------------------------------------------------------------------
@@ -850,6 +908,17 @@ func (a *FuncAn) edgeState(p, b *ssa.BasicBlock, idx int) *State {
 			ptrPhis = append(ptrPhis, phi)
 		} else {
 			ptrPhis = append(ptrPhis, phi)
+		}
+	}
+	for _, mp := range a.memPhis[b] {
+		if idx >= len(mp.reps) || mp.reps[idx] == nil {
+			continue
+		}
+		if l := a.LenOf(mp.load); len(l.t) == 1 && l.C == 0 && l.t[0].k == 1 {
+			phis = append(phis, phiRec{l.t[0].a, a.LenOf(mp.reps[idx])})
+		}
+		if cl, ok := a.capMemo[a.cv(mp.load)]; ok && len(cl.t) == 1 && cl.C == 0 && cl.t[0].k == 1 {
+			phis = append(phis, phiRec{cl.t[0].a, a.CapOf(mp.reps[idx])})
 		}
 	}
 	if len(phis) == 0 && len(ptrPhis) == 0 {
